@@ -88,7 +88,7 @@ def _relevant(effects):
             a, b = _relevant(e[2]), _relevant(e[3])
             if a or b:
                 out.append(("if", e[1], tuple(a), tuple(b)))
-        elif e[0] in ("store", "raise", "del", "return", "with", "endwith", "set"):
+        elif e[0] in ("store", "raise", "del", "return", "with", "set"):  # "endwith": when the lock is released relative to a return is immaterial
             out.append(e)
         elif e[0] == "maybe":
             inner = _relevant(e[1])
